@@ -1,1 +1,161 @@
-//! C05 harnesses (see /verif/tools/HARNESS_GUIDE.md).
+//! C05 — rolling outputs are input-length and null exactly during warm-up. Engine K part.
+//!
+//! (a) LENGTH LAW (this file): every rolling entry point of the pinned build — the 36 `ts_*` methods of
+//!     `RollingValidFeature`, `RollingFeature`, `RollingValidCmp` (`RollingCmp` has no methods),
+//!     `RollingValidNorm`, `RollingValidBinary`, `RollingValidReg`, `RollingValidRegBinary` — returns
+//!     exactly N outputs for an input of N elements, N in {0,1,2,3} (empty in, empty out), and does not
+//!     panic, for every window `w in 1..=N+2`, every explicit `min_periods in 0..=w` and omitted
+//!     `min_periods` (extrema/rank family: omitted only for N >= w, DESIGN 5.3), every null mask.
+//!     Inputs are `Vec<Option<i32>>` for the null-aware traits and `Vec<i32>` for `RollingFeature`
+//!     (cheapest element types; the float work is irrelevant to the length); element values are bounded
+//!     by |x| <= 1000 so that the T-typed accumulators of `ts_sum`/`ts_vsum` and the T-typed differences
+//!     of `ts_vminmaxnorm` cannot overflow (value-range matters belong to C01/C03, not to the length law).
+//!     Output container: `Vec<f64>` (`Vec<(f64,f64,f64)>` for `ts_vregx_all`).
+//!     `ts_fdiff`/`ts_vfdiff` are behind cargo feature `fdiff`, which is not part of the pinned build.
+//!
+//! (b) NULL-MASK LAW of the extrema/rank/minmaxnorm family on `Option<i32>`: folded into the C03 oracles
+//!     (`/verif/kani/src/c03.rs`): every `run_*` there asserts "output i is null IFF valid count of the
+//!     window < effective min_periods (or the window has no valid element / the current element is null
+//!     for rank and minmaxnorm / the spread is zero for minmaxnorm)" at every position, with the same
+//!     quantification (N <= 4 quick, w in 1..=N+2, explicit min_periods 0..=w, omitted per 5.3). The
+//!     C03 harnesses `c03_*_os_*`, `c03_*_oa_*`, `c03_*_is_*`, `c03_*_fs_*` are therefore evidence for C05 too.
+//!     The null-mask law of the float kernels is Engine M's.
+//!
+//! Stubs (part of the claim): `std::fmt::format` -> empty String; `f64::sqrt`, `f64::powi`, `f64::mul_add` -> any f64
+//! (over-approximation: whatever these return, the length and the absence of panics must hold); in the three
+//! `ts_vregx_resid_*` harnesses additionally `AggValidBasic::{vmean,vstd,vskew}` -> drain the iterator, any f64.
+//!
+//! Isolated defects of the pinned tree (kept failing; the neighbouring harnesses exclude exactly them):
+//!   `c05_len_vrank_n0`      — `ts_vrank` on empty input: `window - 1` with window = min(len, w) = 0.
+//!   `c05_len_vcov_mp0_n1`   — `ts_vcov` with effective min_periods 0 and no valid pair yet: `(n - 1)` with
+//!                             n = 0 (e.g. `ts_vcov(.., 1, None)` with a null first pair). The main binary
+//!                             harnesses run `ts_vcov` with effective min_periods >= 1.
+use tea_core::prelude::*;
+use tea_rolling::*;
+
+use crate::util::*;
+
+#[derive(Clone, Copy)]
+pub struct Par {
+    pub w: usize,
+    pub mp: Option<usize>,
+    /// min(min_periods or floor(w/2), w)
+    pub eff: usize,
+}
+
+/// w in 1..=N+2; min_periods explicit in 0..=w or omitted; `omitted_needs_full`: omitted only when N >= w
+pub fn params<const N: usize>(omitted_needs_full: bool) -> Par {
+    let w: usize = kani::any();
+    kani::assume(w >= 1 && w <= N + 2);
+    let explicit: bool = kani::any();
+    let m: usize = kani::any();
+    kani::assume(m <= w);
+    if !explicit && omitted_needs_full {
+        kani::assume(N >= w);
+    }
+    let mp = if explicit { Some(m) } else { None };
+    let eff = if explicit { m } else { w / 2 };
+    Par { w, mp, eff }
+}
+
+pub fn opt_input<const N: usize>() -> Vec<Option<i32>> {
+    let a: [Option<i32>; N] = kani::any();
+    let mut i = 0;
+    while i < N {
+        if let Some(v) = a[i] {
+            kani::assume(v >= -1000 && v <= 1000);
+        }
+        i += 1;
+    }
+    a.to_vec()
+}
+
+pub fn int_input<const N: usize>() -> Vec<i32> {
+    let a: [i32; N] = kani::any();
+    let mut i = 0;
+    while i < N {
+        kani::assume(a[i] >= -1000 && a[i] <= 1000);
+        i += 1;
+    }
+    a.to_vec()
+}
+
+/// one-series entry point: call, assert the length
+macro_rules! len1 {
+    ($v:expr, $p:expr, $n:expr, $f:ident) => {{
+        let out: Vec<f64> = $v.$f($p.w, $p.mp);
+        assert!(out.len() == $n, concat!(stringify!($f), ": exactly one output per input element"));
+    }};
+}
+/// rank: all four (pct, rev) variants through symbolic flags
+macro_rules! len_rank {
+    ($v:expr, $p:expr, $n:expr) => {{
+        let pct: bool = kani::any();
+        let rev: bool = kani::any();
+        let out: Vec<f64> = $v.ts_vrank($p.w, $p.mp, pct, rev);
+        assert!(out.len() == $n, "ts_vrank: exactly one output per input element");
+    }};
+}
+/// two-series entry point
+macro_rules! len2 {
+    ($v:expr, $o:expr, $p:expr, $n:expr, $f:ident) => {{
+        let out: Vec<f64> = $v.$f(&$o, $p.w, $p.mp);
+        assert!(out.len() == $n, concat!(stringify!($f), ": exactly one output per input element"));
+    }};
+}
+macro_rules! len2_all {
+    ($v:expr, $o:expr, $p:expr, $n:expr) => {{
+        let out: Vec<(f64, f64, f64)> = $v.ts_vregx_all(&$o, $p.w, $p.mp);
+        assert!(out.len() == $n, "ts_vregx_all: exactly one output per input element");
+    }};
+}
+
+
+/// Over-approximating stubs for the length law (part of the claim): `f64::sqrt`, `f64::powi` and
+/// `f64::mul_add` may return ANY f64.
+/// CBMC's bit-level models of the two intrinsics dominate the formula (ts_vstd alone at N = 3: 5.4 M
+/// clauses, 190 s) although no length or panic condition can depend on their result more than on an
+/// arbitrary float.
+pub fn any_sqrt(_x: f64) -> f64 {
+    kani::any()
+}
+pub fn any_powi(_x: f64, _n: i32) -> f64 {
+    kani::any()
+}
+pub fn any_mul_add(_x: f64, _a: f64, _b: f64) -> f64 {
+    kani::any()
+}
+
+/// Stand-ins for the default methods `vmean` / `vstd` / `vskew` of `tea_core::prelude::AggValidBasic<T>` (same
+/// generic lists; a trait default method can only be stubbed by a method of a local blanket-implemented trait).
+/// Used by the `ts_vregx_resid_*` harnesses only: the residual iterator `(start..=end).map(|j| ...)` is drained
+/// — so every `uget(j)` of the kernel closure still runs under Kani's checks — and ANY f64 is returned.
+/// Reason (measured): the aggregates branch on the NaN-ness of every residual, which ties all of their integer
+/// bookkeeping to the float data path; ts_vregx_resid_mean alone needs 120 s at N = 1 and 440 s at N = 2,
+/// ts_vregx_resid_skew does not finish in 600 s at N = 1. Panic-freedom of the aggregates themselves is C11's.
+pub trait StubAgg<T: IsNone>: IntoIterator<Item = T> + Sized {
+    fn vmean_drain(self) -> f64
+    where
+        T::Inner: Number,
+    {
+        for _ in self {}
+        kani::any()
+    }
+    fn vstd_drain(self, _min_periods: usize) -> f64
+    where
+        T::Inner: Number,
+    {
+        for _ in self {}
+        kani::any()
+    }
+    fn vskew_drain(self, _min_periods: usize) -> f64
+    where
+        T::Inner: Number,
+    {
+        for _ in self {}
+        kani::any()
+    }
+}
+impl<I: IntoIterator<Item = T>, T: IsNone> StubAgg<T> for I {}
+
+include!("c05_gen.rs");
